@@ -1234,3 +1234,54 @@ def regex_digit_gaps(repo, relprefix):
             if digits and digits != set(range(10)):
                 out.append((rel, n.lineno, p.value, sorted(set(range(10)) - digits)))
     return out
+
+
+def regex_greedy_groups(repo, relprefix):
+    """Regular expressions (literal patterns in modules under relprefix) in which a GREEDY repetition of "any character"
+    stands between a literal '(' and a literal ')': on a line with two bracketed groups the match runs from the first '('
+    to the last ')', so the groups (and everything between them) are read as one.  The non-greedy form `.*?` and the
+    bounded form `[^)]*` are fine.  -> [(relpath, line, pattern)]"""
+    try:
+        from re import _parser as sre_parse
+    except ImportError:
+        import sre_parse
+    out = []
+    for rel, tree in repo.trees.items():
+        if not rel.startswith(relprefix):
+            continue
+        for n in ast.walk(tree):
+            if not (isinstance(n, ast.Call) and isinstance(n.func, ast.Attribute) and isinstance(n.func.value, ast.Name) and n.func.value.id == 're' and n.args
+                    and n.func.attr in ('compile', 'findall', 'finditer', 'split', 'search', 'sub')):
+                continue
+            p = n.args[0]
+            if not (isinstance(p, ast.Constant) and isinstance(p.value, str)):
+                continue
+            try:
+                parsed = sre_parse.parse(p.value)
+            except Exception:
+                continue
+            bad = [False]
+
+            def seq(items):
+                items = list(items)
+                for k_, (op, av) in enumerate(items):
+                    name = str(op)
+                    if name == 'MAX_REPEAT' and av[1] > 1 and len(av[2]) == 1 and str(av[2][0][0]) == 'ANY':
+                        before = any(str(o) == 'LITERAL' and a == 40 for o, a in items[:k_])
+                        after = any(str(o) == 'LITERAL' and a == 41 for o, a in items[k_ + 1:])
+                        if before and after:
+                            bad[0] = True
+                    if name in ('MAX_REPEAT', 'MIN_REPEAT', 'POSSESSIVE_REPEAT'):
+                        seq(av[2])
+                    elif name == 'SUBPATTERN':
+                        seq(av[-1])
+                    elif name == 'BRANCH':
+                        for alt in av[1]:
+                            seq(alt)
+            try:
+                seq(parsed)
+            except Exception:
+                continue
+            if bad[0]:
+                out.append((rel, n.lineno, p.value))
+    return out
